@@ -673,7 +673,7 @@ func runC10(res *Result, rng *RNG, tier string, outDir string) {
 		ops[i] = o.coq()
 	}
 	panel := "Definition panel_ops : list aop := " + coqList(ops) + ".\n"
-	WriteShardsFn(res, outDir, "C10", "Base Term Expr Datalog Authz DTerm Symbols Chain Wire Token Corr",
+	WriteShardsFn(res, outDir, "C10", "Base Term Expr Datalog Authz DTerm Symbols Chain Wire Token Corr DEval CorrD",
 		func(start, end int) string {
 			orc := newOracle()
 			for _, in := range lineIn[start:end] {
@@ -683,7 +683,7 @@ func runC10(res *Result, rng *RNG, tier string, outDir string) {
 				}
 			}
 			return orc.coq("") + panel
-		}, "pipe_case", "pipe_ok pub_tbl ver_tbl panel_ops", lines, 250)
+		}, "pipe_case", "fun c => pipe_ok pub_tbl ver_tbl panel_ops c && pipe_ok_D pub_tbl ver_tbl panel_ops c", lines, 250)
 	res.ModelCases = len(lines)
 	res.CaseDescs = descs
 	_ = time.Now
